@@ -3,6 +3,7 @@ import P2PVerif.Lemmas.DHT
 import P2PVerif.Model.DHTNode
 import P2PVerif.Lemmas.DHTNode
 import P2PVerif.Lemmas.SrcIter
+import P2PVerif.Lemmas.SrcDht
 /-! # C20 — iterative DHT operations are bounded, non-redundant and report truthfully
 Property theorems only, about the model of p/kademlia/dht.go in `Model/DHT.lean`. The remote side is an
 arbitrary responder `Nat → NodeInfo → Resp` (call index first), so cyclic, self-referential, fabricated,
@@ -203,5 +204,31 @@ example :
       ((), (if x.ID.head? = some 8 then [mk 1, mk 2] else [mk 8]), true)
     (Src.kademlia.dhtIterate [mk 8] (List.replicate 32 0) 3 (fun s x => pure (srcRec g s x)) ((), [])).toOption.map
       (fun r => r.2.reverse.map (·.head?)) = some [some 8, some 1, some 2] := by decide
+
+/-- ⊢ regenerated `DHTGet`, truthful: `Src.kademlia.DHTGet` is the definition go2lean produces from `DHTGet` in
+    p/kademlia/dht.go (the closure it hands to `dhtIterate` included, with the result it accumulates as the closure's
+    state). For every network — `Ask` is any total function of the contacted node and the request: honest, failing,
+    adversarial, with cyclic or fabricated closer lists —, every total validator (none: accept all), every key and
+    every list of initial peers: when the call returns, the reported value is absent (and `From` is the zero id), or it
+    is exactly the value that a node with id `From` answered without an error and that the validator accepted; an
+    error is reported iff `From` is the zero id. -/
+theorem src_DHTGet_truthful (params : Src.kademlia.DHTGetParamsT)
+    (hAsk : ∀ n r, ∃ a, params.Ask n r = .ok a) (hVal : ∀ x, ∃ b, Src.getValidate params x = .ok b)
+    (res : Src.kademlia.DHTGetResultT) (err : Go.Err) (h : Src.kademlia.DHTGet params = .ok (res, err)) :
+    ((res.Value = [] ∧ res.From = Src.zero32) ∨
+      ∃ node resp, node.ID = res.From ∧ params.Ask node { Key := params.Key } = .ok (resp, none) ∧
+        resp.Value = some res.Value ∧ Src.getValidate params res.Value = .ok true) ∧
+    (err.isSome ↔ res.From = Src.zero32) :=
+  Src.DHTGet_good params hAsk hVal res err h
+
+-- non-vacuity: a run of the regenerated DHTGet that returns a validated value (A answers [7], closer to key 0 than B)
+example :
+    let mk : UInt8 → Src.kademlia.NodeInfoT := fun b => { ID := b :: List.replicate 31 0, Info := [] }
+    let params : Src.kademlia.DHTGetParamsT := {
+      Key := List.replicate 32 0, Initial := [mk 9], Validate := some (fun v => pure (v != [])),
+      Ask := fun n _ => pure (if n.ID.head? = some 9 then ({ Value := none, ExpiresAt := default, Closer := [mk 1] }, none)
+                              else ({ Value := some [7], ExpiresAt := default, Closer := [] }, none)) }
+    (Src.kademlia.DHTGet params).toOption.map (fun r => (r.1.Value, r.1.From.head?, r.1.NumContacted, r.2.isSome)) =
+      some ([7], some 1, 2, false) := by decide
 
 end P2PVerif.C20
